@@ -79,7 +79,19 @@ func c10Observe(v interface{}) string {
 	return fmt.Sprintf("?%T:%v", v, v)
 }
 
+// c10Replay replays the history twice: with the constructors applications use (NewContextWith, New), and with the
+// exported constructor both are made of (NewContextWithOuter with a nil / the parent as outer context).
 func c10Replay(cs *c10Case) (sig, msg string) {
+	if sig, msg = c10ReplayV(cs, false); sig != "" {
+		return sig, msg
+	}
+	if sig, msg = c10ReplayV(cs, true); sig != "" {
+		return "withouter:" + sig, "(contexts made by NewContextWithOuter) " + msg
+	}
+	return "", ""
+}
+
+func c10ReplayV(cs *c10Case, withOuter bool) (sig, msg string) {
 	defer func() {
 		if r := recover(); r != nil {
 			sig, msg = "panic", fmt.Sprintf("panic: %v", r)
@@ -102,11 +114,17 @@ func c10Replay(cs *c10Case) (sig, msg string) {
 					gc = context.WithValue(gc, k, c10Val(v))
 				}
 				ctxs = append(ctxs, plush.NewContextWithContext(gc))
+			} else if withOuter {
+				ctxs = append(ctxs, plush.NewContextWithOuter(d, nil))
 			} else {
 				ctxs = append(ctxs, plush.NewContextWith(d))
 			}
 		case "new":
-			ctxs = append(ctxs, ctxs[e.C-1].New().(*plush.Context))
+			if withOuter {
+				ctxs = append(ctxs, plush.NewContextWithOuter(map[string]interface{}{}, ctxs[e.C-1]))
+			} else {
+				ctxs = append(ctxs, ctxs[e.C-1].New().(*plush.Context))
+			}
 		case "set":
 			ctxs[e.C-1].Set(e.K, c10Val(e.V))
 		}
